@@ -26,7 +26,10 @@ class Run(object):
             if e.fn is None or e.fn in pin or not e.stack or fn not in e.stack:
                 return False
             k = len(e.stack) - 1 - e.stack[::-1].index(fn)
-            return all(q not in pin for q in e.stack[k + 1:])
+            tail = e.stack[k + 1:]
+            if tail and getattr(e, "callee", None) == tail[-1]:
+                tail = tail[:-1]            # a call event is logged with its callee already on the stack
+            return all(q not in pin for q in tail)
         return [e for e in self.I.events if e.kind == kind and on_behalf(e)]
 
     def returns(self):
